@@ -51,13 +51,20 @@ driver raises, or is passed over — patch 06, the current tree).
     `substitute_wiring` — the pin-by-pin wiring lemma (host line at instance pin `k` is connected to what port `k` of the
     implementation was connected to, through `node_map`) and the frame (all other host nodes and line ends untouched);
     `substitute_sem_partial` — every host line not driven by the cell keeps its equation literally (all regular uses, no
-    side condition on the implementation).
+    side condition on the implementation).  `substitute_wiring` and `substitute_sem_partial` carry the hypothesis `denseB` (no
+    copied fork had a `None` gap to be squeezed out by the loop added with the repair of D30, which renumbers driver pins;
+    true whenever the forks of the implementation are gap-free).
   - **`substitute_sem`** — the FULL semantic statement for `substitute` (vocabulary: Model/SubstSem.lean, Proofs/SubstSem1.lean),
     for every well-formed host and implementation, every use in which nothing is removed (`keepsAllB`: designated cell
     exists, no connected-but-ignored input pin, every unconnected output is driven by a node that stays; this contains
     regular use, `regular_keepsAll`, and allows unconnected input pins), cell neither port nor fork, under the decidable
-    side conditions `implOKB` on the implementation (designated cell not a port, ports distinct, no port a
-    flip-flop/latch, a port that is driven and read inside is a fork).  Relational form, no acyclicity / evaluation order:
+    side conditions `implOKB` on the implementation (there is a designated cell, ports distinct, no port a
+    flip-flop/latch, a port that is driven and read inside is a fork; the earlier clause "designated cell not a port" is
+    gone with the repair of D32, see below).  The theorems are about `substitute` WITH the loop added by the repair of D30
+    (`densify`: the outputs of copied forks made gap-free, driver pins renumbered) and need NO `denseB`: the loop keeps
+    the circuit well-formed, changes only output lists of copied forks and the driver pins of their lines, and a fork's
+    equation does not look at the driver pin (Proofs/Densify.lean) — `exGapImpl` is a use with a gap.
+    Relational form, no acyclicity / evaluation order:
     with `ImplMatches h c m sh anm vm v` = "`(anm, vm)` is a consistent labelling of the implementation whose ports carry
     the values of the instance's lines in the host labelling `v`" (the line of an input port whose instance pin is
     unconnected is ABSENT in the implementation, `cutIns m (deadLine …)` — kyupy's own reading of a missing pin, finding
@@ -68,10 +75,13 @@ driver raises, or is passed over — patch 06, the current tree).
     (so the new state elements capture what the implementation's capture); the result is well-formed (`substitute_wf`),
     `node_map` is injective, keeps kinds, host nodes / ports / line indices are untouched, the new lines are the copied
     lines in order.  `consOff_consistent` ties `ConsOff … ∅` to `consistentB` of C01.
-    `substitute_designated_port_not_wf` — kernel-checked witness that the side condition "designated cell is not a port"
-    is needed: for a Verilog-style feed-through implementation the real `substitute` (and the model) return a circuit that
-    is not well-formed (a copied line loses its reader pin to the instance's input line; `copy()` of it changes the function)
-    — finding D32.
+    `substitute_designated_port_not_wf` / `substitute_feedthrough_repaired` — finding D32 and its repair: under the EARLIER rule
+    (`substituteOld`, Model/SubstSem.lean: the node at which the walk from the first output ends is the designated cell
+    even when it is a port) a Verilog-style feed-through implementation made `substitute` return a circuit that is not
+    well-formed (a copied line loses its reader pin to the instance's input line; `copy()` of it changes the function);
+    with the repaired rule (a port is no designated cell: `implShape`, the model of the current code) the same input gives the
+    well-formed feed-through, and under `implOKB` the designated cell is never a port (`implShape_des_notPort`), so that
+    clause is no longer a hypothesis.
     **`remove_dangling_sem`** — `remove_dangling_nodes` (model `removeDangling`, every circuit that is well-formed up to trailing
     `None`s, any start nodes / `only` set): the result is well-formed up to trailing `None`s and embeds into the circuit
     before (index maps `r`: kinds, names, ports, state elements, the lines read at every pin and the driver of every
@@ -79,11 +89,13 @@ driver raises, or is passed over — patch 06, the current tree).
     removed lines that satisfy their equations.  **`substitute_sem_removing`** — `substitute` with an unconnected output whose
     driver dangles (`noIgnoredB`: designated cell, no connected-but-ignored input pin; any outputs): the result is the
     circuit `substituteCore` builds, for which `SubstSemStmt` (the conclusion of `substitute_sem`) holds, with dangling logic
-    removed as in `remove_dangling_sem`.  The result need not satisfy `NNet.wf`: `Line.remove()` leaves a trailing `None` in
+    removed as in `remove_dangling_sem` (the loop `densify` in between is absorbed: it is an identity embedding).  The
+    result need not satisfy `NNet.wf`: `Line.remove()` leaves a trailing `None` in
     the pin list of a cell (example `exImplFZ`; then `copy_dump_eq` does not apply to it).
     NOT covered (modelled, covered by `substitute_ports` / `substitute_state_perm` and the oracle only): an input pin that
     the implementation ignores (`Line.remove` renumbers lines inside the loop), an implementation without designated cell
-    (`node.remove()`), implementations violating `implOKB`.
+    (`node.remove()`: no output and no state element, or — since the repair of D32 — a feed-through), implementations
+    violating `implOKB`.
   - **`resolve_sem`** — `resolve_tlib_cells` (model `resolveCells`) when every substitution along the loop removes nothing
     (`resolveOKB`, decidable by running the model): the result is well-formed, keeps ports, other nodes and node keys, and
     its consistent labellings are exactly the labellings of the original circuit that are consistent outside the library
@@ -103,9 +115,12 @@ driver raises, or is passed over — patch 06, the current tree).
 * **Oracle only** (harness/c10.py): for the uses of `substitute` / `resolve_tlib_cells` outside the hypotheses of
   `substitute_sem` / `resolve_sem` (something is removed, `implOKB` fails) the semantic statement (Boolean function at
   ports and state elements unchanged) is decided on the real code by simulation before/after (random compositions, every
-  library cell × pin subsets, synthetic libraries); the same simulation also runs on the covered uses.  That the real
-  circuits satisfy `keepsAllB` / `implOKB` / `resolveOKB` is not evaluated by the harness yet (the predicates are
-  executable model functions). -/
+  library cell × pin subsets, synthetic libraries); the same simulation also runs on the covered uses.  The harness
+  evaluates `keepsAllB` / `implOKB` / `noIgnoredB` / `resolveOKB` / `denseB` on every real case of the correspondence streams
+  (driver commands `substok` / `resolveok`), counts how many fall under the theorems (tags `sem-hyp:*`, with
+  `sem-hyp:covered-gap` = a copied fork had a gap) and checks `wf` of the REAL result there.
+  D30 / D32 are repaired in the code under test; their witnesses (`FORK_GAP_WITNESS` in harness/c09.py,
+  corpus/C10-designated-port.json) run first in every run and are violations if the behaviour returns. -/
 namespace KV.C10
 open KV KV.Transform
 variable {skip : Bool}
@@ -302,19 +317,25 @@ theorem substitute_regular (h m h' : NNet) (c : Nat) (hw : h.wf = true) (hc : c 
       h'.kindNames = h.kindNames.set c ((m.net.node dn).kind, h.names.getD c "") ++ addedKN m (h.names.getD c "") (some dn) := by
   have w := WF.of_wf hw
   have li : LI h := ⟨w.names, w.io⟩
-  obtain ⟨sh, dn, map, hs, hd, hcore, _⟩ := substitute_regular_eq h c m h' hr he
+  obtain ⟨sh, dn, map, h5, hs, hd, hcore, eh', _⟩ := substitute_regular_eq' h c m h' hr he
   have p1 := phase1_some_obs h c m dn li hc
   rw [← hd] at p1
-  have o := substituteCore_obs h c m sh hs h' map [] hcore p1.2.2.1 p1.2.2.2
-  obtain ⟨h2, net4, ren, net5, _, _, hfold, hci, hco, e⟩ := substituteCore_inv h c m sh hs h' map [] hcore
+  have o := substituteCore_obs h c m sh hs h5 map [] hcore p1.2.2.1 p1.2.2.2
+  obtain ⟨h2, net4, ren, net5, _, _, hfold, hci, hco, e⟩ := substituteCore_inv h c m sh hs h5 map [] hcore
+  -- the loop that makes the copied forks dense only re-wires pins
+  have pd := pinsOnly_densify h5.net map
+  have od := obs_of_pinsOnly h5 { h5 with net := densify h5.net map } pd rfl
   have hio' : h'.net.io = h.net.io := by
     have f := foldlM_addImplNode_obs m _ sh.des _ _ _ hfold p1.2.2.1 p1.2.2.2
     have p3 := pinsOnly_phase3 m map h2
     have p4 := pinsOnly_connectIns m map _ _ _ hci
     have p5 := pinsOnly_connectOuts m map _ _ _ hco
+    subst eh'
+    show (densify h5.net map).io = h.net.io
+    rw [pd.2]
     subst e
     rw [(p3.trans (p4.trans p5)).2, f.2.2.2.1, hd]; rfl
-  exact ⟨sh, dn, hs, hd, hio', by rw [o.1, p1.1, hd]⟩
+  exact ⟨sh, dn, hs, hd, hio', by subst eh'; rw [od.1, o.1, p1.1, hd]⟩
 
 /-- the documented case in which `substitute` keeps `[n.name for n in c.s_nodes]`, names AND order: regular use, the
     designated cell is of the same class as the cell it replaces (flip-flop / latch / neither, as `s_nodes` reads the
@@ -348,9 +369,13 @@ theorem substitute_snames (h m h' : NNet) (c : Nat) (hw : h.wf = true) (hc : c <
     line, or pin 0 of the fork created for a port with several readers); the host line at output pin `k` is driven from
     what drove output `k` of the implementation (`outTarget`: the driver pin of the port's line, or the next output of
     the fork created for an output that is also read internally).  Frame: all other nodes of the host keep their record,
-    all other lines keep driver side / reader side. -/
+    all other lines keep driver side / reader side.
+    `denseB` (a Boolean function of host, cell and implementation): no copied fork has a `None` gap after the connecting loops — since the
+    repair of D30 `substitute` makes such forks dense again and renumbers the driver pins of their lines, so the pin
+    positions below are the implementation's only when nothing had to be squeezed (true whenever the forks of the
+    implementation are gap-free, as in every library cell). -/
 theorem substitute_wiring (h m h' : NNet) (c : Nat) (hw : h.wf = true) (hc : c < h.net.nodes.size)
-    (hr : regularB h c m = true) (he : substitute h c m = some h') :
+    (hr : regularB h c m = true) (hdense : denseB h c m = true) (he : substitute h c m = some h') :
     ∃ sh map, implShape m = some sh ∧
       (∀ k x, map.getD k none = some x → x = c ∨ h.net.nodes.size ≤ x) ∧
       (∀ k ll, (h.net.node c).ins.getD k none = some ll → ∃ inn r rp, sh.inPorts[k]? = some inn ∧
@@ -363,7 +388,7 @@ theorem substitute_wiring (h m h' : NNet) (c : Nat) (hw : h.wf = true) (hc : c <
       (∀ l, l < h.net.lines.size → (h.net.line l).reader ≠ c →
         (h'.net.line l).reader = (h.net.line l).reader ∧ (h'.net.line l).rpin = (h.net.line l).rpin) := by
   have w := WF.of_wf hw
-  obtain ⟨sh, dn, map, hs, hd, hcore, hni⟩ := substitute_regular_eq h c m h' hr he
+  obtain ⟨sh, dn, map, hs, hd, hcore, hni⟩ := substitute_regular_eq h c m h' hr hdense he
   obtain ⟨fr, hm, win, wout⟩ := substituteCore_wire h c m sh hs w hc dn hd hni h' map [] hcore
   refine ⟨sh, map, hs, hm, win, wout, fr.node, ?_, ?_⟩
   · intro l hl hne
@@ -382,7 +407,8 @@ theorem substitute_wiring (h m h' : NNet) (c : Nat) (hw : h.wf = true) (hc : c <
 theorem regular_keepsAll (h m h' : NNet) (c : Nat) (hr : regularB h c m = true) (he : substitute h c m = some h') :
     keepsAllB h c m = true := regularB_keepsAll h c m h' hr he
 
-/-- `substitute`, when nothing is removed, returns a well-formed circuit (side conditions as for `substitute_sem`) -/
+/-- `substitute`, when nothing is removed, returns a well-formed circuit (side conditions as for `substitute_sem`; no
+    `denseB`: the loop added with the repair of D30 keeps the circuit well-formed, Proofs/Densify.lean) -/
 theorem substitute_wf (h m h' : NNet) (c : Nat) (hw : h.wf = true) (mw : m.wf = true) (hc : c < h.net.nodes.size)
     (hio : h.net.io.contains c = false) (hcf : (h.net.node c).isFork = false)
     (hr : keepsAllB h c m = true) (hok : implOKB m = true) (he : substitute h c m = some h') : h'.wf = true := by
@@ -390,8 +416,9 @@ theorem substitute_wf (h m h' : NNet) (c : Nat) (hw : h.wf = true) (mw : m.wf = 
   exact wf_of_WF ct.wf'
 
 /-- **the semantic statement about `substitute`** (conclusion of `substitute_sem`; `h'` = the circuit after the implementation
-    has been copied in and connected, before dangling logic is removed — which is the result of `substitute` when nothing
-    is removed).  `substitute` preserves the function (full semantic statement; all uses in which nothing is removed, `keepsAllB`:
+    has been copied in and connected and the outputs of the copied forks made dense, before dangling logic is removed —
+    which is the result of `substitute` when nothing is removed; the statement holds for the circuit before AND after the
+    densifying loop, `substitute_sem_removing` uses it for the former).  `substitute` preserves the function (full semantic statement; all uses in which nothing is removed, `keepsAllB`:
     regular use — `regular_keepsAll` —, unconnected input pins, unconnected outputs whose driver stays).
     Vocabulary (Model/SubstSem.lean, Proofs/SubstSem1.lean): `ConsOff nn S an v` — the labelling `v` of the lines of `nn`
     under the node-indexed assignment `an` satisfies the equation (`lineEq`, Model/Net.lean) of every line whose driver
@@ -401,7 +428,7 @@ theorem substitute_wf (h m h' : NNet) (c : Nat) (hw : h.wf = true) (mw : m.wf = 
     assigned the value of the host line at its instance pin (`portVal`: `z` for an unconnected pin and for output ports),
     and output line `k` of `m` carries the value of the host line at output pin `k` of the instance.
     For every well-formed host `h` and implementation `m`, cell `c` (no port, no fork), when nothing is removed
-    (`keepsAllB`) and under the side conditions `implOKB m` (designated cell no port, ports distinct, no port a flip-flop/latch, driven
+    (`keepsAllB`) and under the side conditions `implOKB m` (a designated cell exists, ports distinct, no port a flip-flop/latch, driven
     ports that are read inside are forks), with `h' = substitute h c m`:
     * `h'` is well-formed; `node_map` (`map`) is injective, sends the designated cell to `c` and everything else behind the
       host's nodes, keeps the kinds (ports become forks); ports and all other nodes of the host are untouched; the lines
@@ -500,7 +527,9 @@ theorem remove_dangling_sem {α : Type _} (fuel : Nat) (nn nn' : NNet) (own : Li
 /-- **`substitute` with removal of dangling logic** (an unconnected output of the instance whose driver dangles): designated
     cell exists and no connected input pin is ignored (`noIgnoredB`; no condition on the outputs), `implOKB`.  The result
     `h'` of `substitute` is the circuit `h5` that `substituteCore` builds — for which the full semantic statement
-    `SubstSemStmt` holds — with dangling logic removed: `h'` embeds into `h5` as in `remove_dangling_sem` (well-formed up
+    `SubstSemStmt` holds — with the copied forks made dense (`densify`: an identity embedding) and dangling logic removed:
+    `h'` embeds into `h5` as in `remove_dangling_sem` (when nothing is removed `h'` is `h5` densified, and `h5` itself
+    under `denseB`; well-formed up
     to trailing `None`s, index maps `r`, same ports, all state elements, every surviving node reads the same lines,
     restrict / extend / extension exists).  Composition (the last two clauses): (1) every consistent labelling of `h'` is the
     restriction of a labelling of `h5` under which the host is consistent outside the cell and the cell has the relational
@@ -512,7 +541,7 @@ theorem substitute_sem_removing {α : Type _} (h m h' : NNet) (c : Nat) (hw : h.
     (z : α) (neg : α → α) (prim : String → α → α → α → α → α) :
     ∃ (h5 : NNet) (map : Array (Option Nat)) (dang : List (Option Nat)) (r : Ren),
       substituteCore h c m = some (h5, map, dang) ∧ SubstSemStmt h m h5 c z neg prim ∧ h'.wfNoTrail = true ∧
-      (keepsAllB h c m = true → h' = h5) ∧
+      (keepsAllB h c m = true → h' = { h5 with net := densify h5.net map }) ∧ (keepsAllB h c m = true → denseB h c m = true → h' = h5) ∧
       (∀ j', j' < h'.net.nodes.size → r.node j' < h5.net.nodes.size ∧ (h'.net.node j').kind = (h5.net.node (r.node j')).kind ∧
         h'.names.getD j' "" = h5.names.getD (r.node j') "" ∧
         ∀ k, ((h'.net.node j').inPin k).map r.line = (h5.net.node (r.node j')).inPin k) ∧
@@ -544,7 +573,17 @@ theorem substitute_sem_removing {α : Type _} (h m h' : NNet) (c : Nat) (hw : h.
           (∀ l, l < h.net.lines.size → v5 l = v l) ∧ (∀ d, d < h.net.nodes.size → d ≠ c → an5 d = an d)) := by
   obtain ⟨h5, map, dang, sh, dn, r, hcore, ct, w', e, sq, ex⟩ :=
     substitute_removing z neg prim h m h' c (WF.of_wf hw) (WF.of_wf mw) hc hio hcf hr hok he
-  refine ⟨h5, map, dang, r, hcore, ?_, wfNoTrail_of_WFm w', ?_,
+  have hkeep : keepsAllB h c m = true → h' = { h5 with net := densify h5.net map } := by
+    intro hk
+    obtain ⟨_, _, h5', map', dang', _, _, hcore', e', _⟩ := substitute_keepsAll_eq h c m h' hk he (fun h5' map' dang' hc' => by
+      rw [hcore] at hc'
+      rw [← (Prod.mk.inj (Option.some.inj hc')).1]; exact ct.wf')
+    rw [hcore] at hcore'
+    obtain ⟨e1, e2⟩ := Prod.mk.inj (Option.some.inj hcore')
+    obtain ⟨e2, _⟩ := Prod.mk.inj e2
+    subst e1 e2
+    exact e'
+  refine ⟨h5, map, dang, r, hcore, ?_, wfNoTrail_of_WFm w', hkeep, ?_,
     fun j' hj => ⟨e.nodeLt j' hj, e.kind j' hj, e.name j' hj, e.pins j' hj (fun x => x)⟩, e.nodeInj, e.io,
     sq, fun l' hl => ⟨e.lineLt l' hl, (e.drv l' hl).2.1⟩, fun S an v hc => e.restrict S z neg prim an v hc,
     fun S an v hc hrem => e.extend S z neg prim an v hc hrem, ?_, ?_⟩
@@ -562,10 +601,9 @@ theorem substitute_sem_removing {α : Type _} (h m h' : NNet) (c : Nat) (hw : h.
       fun j x hm => ⟨ct.mapM j x hm, ct.mapGe j x hm, ct.mapLt j x hm, ct.kind' j x hm⟩, ct.mapInj, ct.io', ct.frameNode, ct.lsize,
       fun S hS an' v' hc' => ct.forward z neg prim S hS an' v' hc',
       fun S an v anm vm hH hM => ct.backward z neg prim S an v anm vm hH hM⟩
-  · intro hk
-    obtain ⟨_, _, map', dang', _, _, hcore', _⟩ := substitute_keepsAll_eq h c m h' hk he
-    rw [hcore] at hcore'
-    exact (Prod.mk.inj (Option.some.inj hcore')).1.symm
+  · intro hk hdn
+    rw [hkeep hk]
+    exact densNN_of_denseB h c m h5 map dang hcore hdn
 
 /-- `ConsOff` without holes is consistency, and consistency in the node-indexed form is `consistentB` (Model/Net.lean,
     the gate-by-gate meaning used by C01): the labelling as an array, the assignment by `s_nodes` position -/
@@ -579,11 +617,11 @@ theorem consOff_consistent {α : Type _} [BEq α] [LawfulBEq α] (nn : NNet) (hw
     and every assignment, `lineEq` of the result at that line equals `lineEq` of the host (same driver, same pin, same
     driver record, hence same gate function of the same in-lines) -/
 theorem substitute_sem_partial {α : Type _} (h m h' : NNet) (c : Nat) (hw : h.wf = true) (hc : c < h.net.nodes.size)
-    (hr : regularB h c m = true) (he : substitute h c m = some h')
+    (hr : regularB h c m = true) (hdense : denseB h c m = true) (he : substitute h c m = some h')
     (sp : Nat → Option Nat) (z : α) (neg : α → α) (prim : String → α → α → α → α → α) (a : Nat → α) (v : Nat → α)
     (l : Nat) (hl : l < h.net.lines.size) (hd : (h.net.line l).driver ≠ c) :
     lineEq h'.net sp z neg prim a v l = lineEq h.net sp z neg prim a v l := by
-  obtain ⟨_, _, _, _, _, _, hnode, hdrv, _⟩ := substitute_wiring h m h' c hw hc hr he
+  obtain ⟨_, _, _, _, _, _, hnode, hdrv, _⟩ := substitute_wiring h m h' c hw hc hr hdense he
   have hb := (WF.of_wf hw).back l hl
   exact lineEq_frame h.net h'.net sp z neg prim a v l (hdrv l hl hd).1 (hdrv l hl hd).2 (hnode _ hb.1 hd)
 
@@ -709,7 +747,7 @@ def exHost : NNet :=
 /-- hypotheses of `substitute_ports` / `_state_perm` / `_regular` / `_snames` / `_wiring` / `_sem_partial` are satisfiable:
     the designated cell is `X=INV1` (node 6 of the implementation); the result is the dump the real code produces
     (harness/c10.py compares such dumps on random inputs) -/
-example : exHost.wf = true ∧ exHost.net.io.contains 2 = false ∧ regularB exHost 2 exImpl = true ∧
+example : exHost.wf = true ∧ exHost.net.io.contains 2 = false ∧ regularB exHost 2 exImpl = true ∧ denseB exHost 2 exImpl = true ∧
     (implShape exImpl).map (fun sh => (sh.inPorts, sh.outLines, sh.des)) = some ([0, 1], [3, 5], some 6) ∧
     -- the class condition of `substitute_snames`
     hasSub "dff" (exImpl.net.node 6).kind.toLower = hasSub "dff" (exHost.net.node 2).kind.toLower ∧
@@ -747,12 +785,15 @@ example : exHostI.wf = true ∧ regularB exHostI 1 exImpl = true ∧ keepsAllB e
     (substitute exHostI 1 exImpl).map (fun r => (r.wf, (r.net.node 6).kind, (r.net.node 6).ins)) =
       some (true, "NAND2", [some 4]) := by decide +kernel
 
-/-- the side condition "the designated cell is not a port" (`implOKB`) cannot be dropped from `substitute_wf`: a
-    Verilog-style feed-through `input A -> fork a -> output X` as implementation makes the port cell `A` the designated
-    cell; the host cell takes kind `input`, its copied line to the fork `u~a` (line 2) loses the fork's pin 0 to the
-    instance's input line (line 0) — regular use, but the result is not a well-formed circuit.  The real `substitute`
-    returns the same dump; `copy()` / a pickle round trip of it then connect the fork to the stale line and the output reads 0
-    instead of the input: finding D32 (corpus/C10-designated-port.json, harness class `substitute-designated-port`) -/
+/-- finding D32 and its repair.  BEFORE the repair (`substituteOld`, Model/SubstSem.lean: `substitute` with the earlier rule
+    `designated_cell = n`) a Verilog-style feed-through `input A -> fork a -> output X` as implementation made the port cell
+    `A` the designated cell: the host cell took kind `input`, its copied line to the fork `u~a` (line 2) lost the fork's
+    pin 0 to the instance's input line (line 0) — regular use, but the result was not a well-formed circuit, and `copy()` / a
+    pickle round trip of it connected the fork to the stale line so that the output read 0 instead of the input
+    (`substitute_designated_port_not_wf`, corpus/C10-designated-port.json, harness class `substitute-designated-port`).
+    SINCE the repair (`substitute`: a port is no designated cell, the instance is removed) the result is the well-formed
+    feed-through `i -> u~a -> o` (`substitute_feedthrough_repaired`); `implOKB` no longer needs the clause "the designated
+    cell is not a port" (`implShape_des_notPort`). -/
 def exFeed : NNet :=
   { net := { nodes := #[⟨"input", [], [some 0]⟩, ⟨"__fork__", [some 0], [some 1]⟩, ⟨"output", [some 1], []⟩],
              lines := #[⟨0, 0, 1, 0⟩, ⟨1, 0, 2, 0⟩], io := [0, 2] },
@@ -762,9 +803,36 @@ def exFeedHost : NNet :=
              lines := #[⟨0, 0, 1, 0⟩, ⟨1, 0, 2, 0⟩], io := [0, 2] },
     names := #["i", "u", "o"] }
 theorem substitute_designated_port_not_wf :
-    exFeed.wf = true ∧ exFeedHost.wf = true ∧ regularB exFeedHost 1 exFeed = true ∧ implOKB exFeed = false ∧
-    (substitute exFeedHost 1 exFeed).map (fun r => (r.wf, (r.net.node 1).kind, r.net.line 2, (r.net.node 3).ins)) =
+    exFeed.wf = true ∧ exFeedHost.wf = true ∧ (implShapeOld exFeed).map (·.des) = some (some 0) ∧
+    (substituteOld exFeedHost 1 exFeed).map (fun r => (r.wf, (r.net.node 1).kind, r.net.line 2, (r.net.node 3).ins)) =
       some (false, "input", ⟨1, 0, 3, 0⟩, [some 0]) := by decide +kernel
+
+/-- the repaired behaviour on the same input: no designated cell, the instance `u` is removed (the last node `o` takes its
+    index, the fork `u~a` is appended), the result `i -> u~a -> o` is well-formed and `copy()` of it has the same lines
+    (`copy_dump_eq` applies) -/
+theorem substitute_feedthrough_repaired :
+    (implShape exFeed).map (·.des) = some none ∧
+    (substitute exFeedHost 1 exFeed).map (fun r => (r.wf, r.kindNames, r.net.io)) =
+      some (true, [("input", "i"), ("output", "o"), ("__fork__", "u~a")], [0, 1]) ∧
+    (substitute exFeedHost 1 exFeed).map (fun r => (r.net.lines.toList, (copyNet r).net.lines.toList)) =
+      some ([⟨0, 0, 2, 0⟩, ⟨2, 0, 1, 0⟩], [⟨0, 0, 2, 0⟩, ⟨2, 0, 1, 0⟩]) := by
+  decide +kernel
+
+/-- a use of `substitute` in which a copied fork gets a GAP (the shape of D30; `C09.exGap` at object level): fork `F` of the
+    implementation drives the output port `O1` at pin 0 and the `INV1` at pin 1, the instance has `O1` open.  Nothing is removed
+    (`keepsAllB`: `F` keeps a connected output), `denseB` is false, `substituteCore` leaves `u~F.outs = [None, line 2]` and
+    `substitute` makes it `[line 2]` with `driver_pin` 0 — `substitute_wf` / `substitute_sem` apply (they need no `denseB`) -/
+def exGapImpl : NNet :=
+  { net := { nodes := #[⟨"input", [], [some 0]⟩, ⟨"__fork__", [some 0], [some 1, some 2]⟩, ⟨"INV1", [some 2], [some 3]⟩,
+                        ⟨"output", [some 1], []⟩, ⟨"output", [some 3], []⟩],
+             lines := #[⟨0, 0, 1, 0⟩, ⟨1, 0, 3, 0⟩, ⟨1, 1, 2, 0⟩, ⟨2, 0, 4, 0⟩], io := [0, 4, 3] },
+    names := #["A", "F", "X", "O1", "O2"] }
+example : exGapImpl.wf = true ∧ exFeedHost.wf = true ∧ exFeedHost.net.io.contains 1 = false ∧ (exFeedHost.net.node 1).isFork = false ∧
+    keepsAllB exFeedHost 1 exGapImpl = true ∧ implOKB exGapImpl = true ∧ regularB exFeedHost 1 exGapImpl = false ∧
+    denseB exFeedHost 1 exGapImpl = false ∧
+    (substituteCore exFeedHost 1 exGapImpl).map (fun r => (r.1.net.node 3).outs) = some [none, some 2] ∧
+    (substitute exFeedHost 1 exGapImpl).map (fun r => (r.wf, (r.net.node 3).kind, (r.net.node 3).outs, r.net.line 2)) =
+      some (true, "__fork__", [some 2], ⟨3, 0, 1, 0⟩) := by decide +kernel
 
 /-- the removing cases are modelled too (they are covered by `substitute_ports` and `substitute_state_perm`): with output
     pin 1 of the instance unconnected the `OR2` of `exImpl` dangles and is removed; with an implementation that ignores
